@@ -58,3 +58,14 @@ for k in range(4):
     z3("q120_add_bbb_lane%d" % k, "x mod (q<<33) + y mod (q<<33) < 2^64 and == x + y mod q_%d" % (k + 1),
        "(declare-const x Int)(declare-const y Int)\n(assert (and (>= x 0) (< x %d) (>= y 0) (< y %d)))\n(define-fun r () Int (+ (mod x %d) (mod y %d)))\n(assert (not (and (< r %d) (= (mod r %d) (mod (+ x y) %d)))))\n(check-sat)\n"
        % (1 << 64, 1 << 64, qs[k] << 33, qs[k] << 33, 1 << 64, qs[k], qs[k]))
+
+# L5 (C04/C10): the split product is congruent to x*t once the table invariant t1 == t*2^h mod q holds (checked on the
+# real tables by lemmas/q120_ntt_tables.c).  Non-linear integer arithmetic (products of variables): z3's nonlinear engine.
+for k in range(4):
+    z3("q120_split_product_congruent_lane%d" % k, "(x mod 2^h)*t + (x div 2^h)*t1 == x*t (mod q_%d) whenever t1 == t*2^h (mod q)" % (k + 1),
+       "(declare-const xl Int)(declare-const xh Int)(declare-const t Int)(declare-const t1 Int)(declare-const p Int)(declare-const m Int)\n"
+       "(assert (and (>= xl 0) (>= xh 0) (>= t 0) (>= t1 0) (>= p 1)))\n"
+       "(assert (= (* t p) (+ t1 (* m %d))))   ; t1 == t*p (mod q), witness m, p stands for 2^h\n"
+       "(declare-const d Int)\n"
+       "(assert (= d (- (* (+ xl (* xh p)) t) (+ (* xl t) (* xh t1)))))   ; x*t - split product\n"
+       "(assert (not (= d (* (* xh m) %d))))   ; ... is the multiple xh*m of q\n(check-sat)\n" % (qs[k], qs[k]))
